@@ -26,7 +26,8 @@ B = h.bounds(
 BRANCHES = ["user mutator (data list + context in place)", "Variable", "UpdateContext", "MakeFilename",
             "fill/compute: (mutator, StoreFilled)", "fill/compute: (Count as FillInto, StoreFilled)",
             "fill/compute that stops mid-buffer: (mutator, Slice(1), StoreFilled)",
-            "(UpdateContext(p, {{missing}}, default=<one dict shared by all such branches>), in-place updates of p)"]
+            "(UpdateContext(p, {{missing}}, default=<one dict shared by all such branches>), in-place updates of p)",
+            "(<one typed Variable object shared by all such branches>, in-place updates of context.variable)"]
 ACCS = ["Sum", "DSum", "Mean", "VarianceMeanCount", "Vectorize(Sum,2)", "Count", "Histogram",
         "SplitIntoBins(Sum, Variable, [0,1,2])", "Vectorize of components yielding two results per compute"]
 BOUNDS = dict(vars(B), branches=BRANCHES, accumulators=ACCS, meaning="pairs of branches from "
@@ -62,10 +63,32 @@ def _first(d):
     return d[0]
 
 
+class Mut2(object):
+    """Appends to the list found in context.variable.rng (in place)."""
+
+    def __init__(self, tag):
+        self.tag = tag
+
+    def __call__(self, v):
+        data, ctx = v
+        ctx["variable"]["rng"].append(self.tag)
+        return v
+
+
 _SHARED = [None]
 
 
+_SHARED_VAR = [None]
+
+
 def make_branch(kind, t):
+    if kind == 8:
+        # the very same Variable object (created with a type, so that its
+        # description is nested) serves every branch of this kind; each branch
+        # then updates the description it received in place
+        if _SHARED_VAR[0] is None:
+            _SHARED_VAR[0] = Variable("sv", _first, type="coord", unit="u", rng=[0, 1])
+        return (_SHARED_VAR[0], UpdateContext("variable.coord.unit", t), Mut2(t))
     if kind == 7:
         # every branch of this kind was given the *same* default object by the
         # user; the first element inserts it where the key is missing, the
@@ -99,9 +122,11 @@ def alone(kind, t, flow, bufsize):
     block by block (sequence branches) / at the end (fill/compute)."""
     flow = copy.deepcopy(flow)
     _SHARED[0] = None            # the reference branch has a default of its own
+    _SHARED_VAR[0] = None        # ... and a Variable of its own
     br = make_branch(kind, t)
     _SHARED[0] = None
-    if kind >= 4 and kind != 7:
+    _SHARED_VAR[0] = None
+    if kind >= 4 and kind not in (7, 8):
         fcs = FillComputeSeq(*br)
         for v in flow:
             try:
@@ -154,16 +179,17 @@ class _SrcGen(object):
 
 def check_split_run(k0: int, k1: int, k2: int, src: int, bufsize: int, xs: List[int]) -> bool:
     """
-    pre: 0 <= k0 <= 7 and 0 <= k1 <= 7 and -1 <= k2 <= 1
+    pre: 0 <= k0 <= 8 and 0 <= k1 <= 8 and -1 <= k2 <= 1
     pre: -1 <= src <= B.SRC
     pre: 1 <= bufsize <= B.SBUF
     pre: len(xs) <= B.SFLOW
-    pre: h.in_shard(k0 + 8 * (k1 % 4) + 32 * (src + 1))
+    pre: h.in_shard(k0 + 9 * (k1 % 4) + 36 * (src + 1))
     post: _
     """
     _SHARED[0] = None
-    k0 = h.concrete(k0, 0, 7)
-    k1 = h.concrete(k1, 0, 7)
+    _SHARED_VAR[0] = None
+    k0 = h.concrete(k0, 0, 8)
+    k1 = h.concrete(k1, 0, 8)
     k2 = h.concrete(k2, -1, 1)       # optional third branch: none | mutator | Variable
     kinds = [k0, k1] + ([k2] if k2 >= 0 else [])
     # optional Source branch at position src (a Source reads nothing from the
@@ -398,7 +424,7 @@ def check_accumulator(kind: int, ops: List[int], cs: List[int]) -> bool:
 
 
 CONDITIONS = [
-    dict(fn="check_split_run", shards=(48, 160), budget=(120, 600),
+    dict(fn="check_split_run", shards=(54, 180), budget=(120, 600),
          smoke=["check_split_run(0, 1, -1, -1, 1, [3, 4])", "check_split_run(4, 0, -1, -1, 2, [3, 4])",
                 "check_split_run(5, 3, 0, -1, 2, [3])", "check_split_run(2, 2, -1, -1, 1, [])", "check_split_run(6, 0, 1, -1, 2, [3, 4])",
                 "check_split_run(6, 4, 0, -1, 2, [3, 4])", "check_split_run(7, 7, -1, -1, 1, [3, 4])", "check_split_run(0, 1, -1, 0, 1, [3, 4])",
